@@ -41,6 +41,11 @@ def main():
 
     from mc import core, env
     env.install_seams()
+    if args.prop is None and args.replay:
+        with open(args.replay) as f:
+            args.prop = json.load(f)["property"]       # a replay file names its own property
+    if args.prop is None:
+        ap.error("a property id is required")
     mod = find_module(args.prop)
     prop = mod.ID
 
